@@ -286,3 +286,41 @@ Qed.
 (* on the trees the parser produces (every BoolOp >= 2 children) print and parse are inverse *)
 Theorem parse_print_exact t : wf2 t = true -> parse (print_toks false t) = Some t.
 Proof. intro H. rewrite parse_print_toks by (apply wf2_wf; exact H). rewrite collapse_id by exact H. reflexivity. Qed.
+
+(* ------------------------------------------------------------ text = rendered tokens *)
+Lemma render_app a b : render (a ++ b) = render a ++ render b.
+Proof. unfold render. apply flat_map_app. Qed.
+
+Lemma render_join o l :
+  Forall (fun x => print true x = render (print_toks true x)) l ->
+  render (join [op_tok o] (map (print_toks true) l)) = join (sep_chars o) (map (print true) l).
+Proof.
+  induction 1 as [|x l Hx Hl IH]; [reflexivity|].
+  destruct l as [|y r].
+  - cbn [map join]. symmetry. exact Hx.
+  - change (join [op_tok o] (map (print_toks true) (x :: y :: r)))
+      with (print_toks true x ++ [op_tok o] ++ join [op_tok o] (map (print_toks true) (y :: r))).
+    change (join (sep_chars o) (map (print true) (x :: y :: r)))
+      with (print true x ++ sep_chars o ++ join (sep_chars o) (map (print true) (y :: r))).
+    rewrite !render_app, IH, <- Hx. f_equal. f_equal.
+    destruct o; cbn; reflexivity.
+Qed.
+
+Theorem print_render lvl t : print lvl t = render (print_toks lvl t).
+Proof.
+  revert lvl. induction t as [g|o l IH] using gpr_ind'; intro lvl.
+  - cbn. rewrite app_nil_r. reflexivity.
+  - assert (H : Forall (fun x => print true x = render (print_toks true x)) l).
+    { rewrite Forall_forall in *. intros x Hx. apply IH. exact Hx. }
+    pose proof (render_join o l H) as J.
+    change (print lvl (Bool o l)) with
+      (if lvl then c_lp :: join (sep_chars o) (map (print true) l) ++ [c_rp]
+       else join (sep_chars o) (map (print true) l)).
+    change (print_toks lvl (Bool o l)) with
+      (if lvl then TLP :: join [op_tok o] (map (print_toks true) l) ++ [TRP]
+       else join [op_tok o] (map (print_toks true) l)).
+    destruct lvl; [|symmetry; exact J].
+    change (render (TLP :: join [op_tok o] (map (print_toks true) l) ++ [TRP]))
+      with ([c_lp] ++ render (join [op_tok o] (map (print_toks true) l) ++ [TRP])).
+    rewrite render_app, J. reflexivity.
+Qed.
